@@ -278,12 +278,18 @@ fn exec_region(ctx: &mut Ctx, arena: &Arena, pl: &[u8], with_modules: bool) {
                         let mut part = it.clone();
                         let first = part.next().map(off);
                         let (lo1, hi1) = part.size_hint();
+                        let last1 = part.clone().last().map(off);
+                        let fold1: Vec<usize> = part.clone().fold(vec![], |mut v, t| { v.push(off(t)); v });
                         let rest = part.count();
-                        (cnt, last, lo, hi, skips, step2, folded, first, lo1, hi1, rest)
+                        // a drained handle stays drained for every adapter
+                        let mut dr = it.clone();
+                        while dr.next().is_some() {}
+                        let drained = (dr.clone().last().is_none(), dr.clone().count(), dr.clone().nth(0).is_none(), dr.fold(0usize, |a, _| a + 1));
+                        (cnt, last, lo, hi, skips, step2, folded, first, lo1, hi1, rest, last1, fold1, drained)
                     });
                     match r {
                         Out::Panic => ctx.violation("c03/adapters/spurious-panic", || "count/last/size_hint/skip/step_by/fold panicked on a well-formed walk".into()),
-                        Out::Val((cnt, last, lo, hi, skips, step2, folded, first, lo1, hi1, rest)) => {
+                        Out::Val((cnt, last, lo, hi, skips, step2, folded, first, lo1, hi1, rest, last1, fold1, drained)) => {
                             ctx.ob("ad.cnt", cnt as u64);
                             let n = want.len();
                             let mut bad = vec![];
@@ -295,6 +301,8 @@ fn exec_region(ctx: &mut Ctx, arena: &Arena, pl: &[u8], with_modules: bool) {
                             if step2 != want.iter().copied().step_by(2).collect::<Vec<_>>() { bad.push(format!("step_by(2) = {:?}", step2)); }
                             if folded != want { bad.push(format!("fold = {:?}", folded)); }
                             if first != want.first().copied() || rest != n.saturating_sub(1) { bad.push(format!("next() = {:?} then count() = {}", first, rest)); }
+                            if (n >= 2 && last1 != want.last().copied()) || (n < 2 && last1.is_some()) || fold1 != want.iter().copied().skip(1).collect::<Vec<_>>() { bad.push(format!("after one next(): last() = {:?}, fold = {:?}", last1, fold1)); }
+                            if drained != (true, 0, true, 0) { bad.push(format!("drained handle: (last() is None, count(), nth(0) is None, fold count) = {:?}", drained)); }
                             if lo1 > n.saturating_sub(1) || hi1.is_some_and(|h| h < n.saturating_sub(1)) { bad.push(format!("size_hint() after one item = ({}, {:?})", lo1, hi1)); }
                             if !bad.is_empty() {
                                 ctx.violation("c03/adapters", || format!("reference walk has {} tags at offsets {:?}; {}", n, want, bad.join("; ")));
